@@ -58,9 +58,28 @@ def tie_calllog(ctx):
             for (x, idx) in log[before:]:
                 if not leq(idx[2:], r[2][2:]):
                     failures.append(dict(what="request %s%s evaluated the input element %s%s outside the cone" % (r[1], list(r[2]), x, list(idx)), input=inp))
+        model_log = list(log)
+        if w["np"] >= 2:
+            # implementation only (the model has no list indices): paired list indices on two order axes select
+            # the elements (a,b) and (b,a) - not their bounding box
+            a, b = rng.choice([(2, 0), (1, 0)])
+            name = rng.choice(names)
+            item = (rng.randrange(w["nb"]), rng.randrange(w["nb"]), [a, b], [b, a]) + (0,) * (w["np"] - 2)
+            cones = [(a, b) + (0,) * (w["np"] - 2), (b, a) + (0,) * (w["np"] - 2)]
+            before = len(log)
+            try:
+                series[name][item]
+            except Exception:  # noqa: BLE001
+                pass
+            for (x, idx) in log[before:]:
+                if not in_cones(idx[2:], cones):
+                    failures.append(dict(what="request %s%s evaluated the input element %s%s outside the cones" % (name, list(map(str, item)), x, list(idx)),
+                                         input=dict(inp, list_request=[name, [item[0], item[1], [a, b], [b, a]] + [0] * (w["np"] - 2)])))
+                    break
         if len(set(log)) != len(log):
             dup = [e for e in set(log) if log.count(e) > 1][0]
             failures.append(dict(what="input element %s%s evaluated more than once" % (dup[0], list(dup[1])), input=inp))
+        log = model_log
         if any(sum(e[1][2:]) >= 2 for e in log):
             nontrivial += 1
         dist[min(len(log), 20)] = dist.get(min(len(log), 20), 0) + 1
@@ -106,9 +125,22 @@ def bd_problem(rng):
                 unsplit=rng.random() < 0.35)
 
 
+def in_cones(n, cones):
+    return any(leq(n, c) for c in cones)
+
+
+def expand_request(ix):
+    """index with ints and paired list entries ["l", [..]] -> (what the user writes, list of the selected
+    elements as integer tuples; numpy pairs the lists element-wise)"""
+    L = max([len(x[1]) for x in ix if isinstance(x, list)] or [1])
+    elems = [tuple((x[1][k] if isinstance(x, list) else x) for x in ix) for k in range(L)]
+    item = tuple((list(x[1]) if isinstance(x, list) else x) for x in ix)
+    return item, elems
+
+
 def bd_build(prob, log, forbid=None, scale_outside=None):
-    """forbid: multi-order n -> eval raises if an element not <= n is touched;
-    scale_outside: (n, c) -> terms not <= n are multiplied by c"""
+    """forbid: list of multi-orders -> eval raises if an element outside the union of their cones is touched;
+    scale_outside: (list of multi-orders, c) -> terms outside the union of the cones are multiplied by c"""
     import numpy as np
     from pymablock import block_diagonalize
     from pymablock.series import BlockSeries, zero
@@ -123,15 +155,15 @@ def bd_build(prob, log, forbid=None, scale_outside=None):
         idx = tuple(int(i) for i in idx)
         log.append(idx)
         i, j, n = idx[0], idx[1], idx[2:]
-        if forbid is not None and not leq(n, forbid):
-            raise AssertionError("Hamiltonian term %s touched outside the cone <= %s" % (n, forbid))
+        if forbid is not None and not in_cones(n, forbid):
+            raise AssertionError("Hamiltonian term %s touched outside the cones <= %s" % (n, forbid))
         if not any(n):
             if i == j and prob.get("zero_block") and i == 0:
                 return zero
             return np.diag(E[sl[i]]) if i == j else zero
         if n in terms:
             t = terms[n][sl[i], sl[j]]
-            if scale_outside is not None and not leq(n, scale_outside[0]):
+            if scale_outside is not None and not in_cones(n, scale_outside[0]):
                 t = t * scale_outside[1]
             return t
         return zero
@@ -140,13 +172,13 @@ def bd_build(prob, log, forbid=None, scale_outside=None):
         # the Hamiltonian as one (not yet split) lazily defined series; the front end splits it
         n = tuple(int(i) for i in orders)
         log.append((-1, -1) + n)
-        if forbid is not None and not leq(n, forbid):
-            raise AssertionError("Hamiltonian term %s touched outside the cone <= %s" % (n, forbid))
+        if forbid is not None and not in_cones(n, forbid):
+            raise AssertionError("Hamiltonian term %s touched outside the cones <= %s" % (n, forbid))
         if not any(n):
             return np.diag(E)
         if n in terms:
             t = terms[n]
-            if scale_outside is not None and not leq(n, scale_outside[0]):
+            if scale_outside is not None and not in_cones(n, scale_outside[0]):
                 t = t * scale_outside[1]
             return t
         return zero
@@ -161,41 +193,80 @@ def bd_build(prob, log, forbid=None, scale_outside=None):
 
 
 def bd_check(prob, reqs):
+    """reqs: (series number, index); the index holds integers and, for list (advanced) indices, ["l", [..]]
+    entries that numpy pairs element-wise - on the order axes and / or on the block axes"""
     import numpy as np
     from pymablock.series import one, zero
 
     def val(v):
-        return "zero" if v is zero else "one" if v is one else np.array(v).tolist()
+        if v is zero:
+            return "zero"
+        if v is one:
+            return "one"
+        if isinstance(v, np.ma.MaskedArray):
+            return [val(x) for x in v.filled(zero).reshape(-1)]
+        if isinstance(v, np.ndarray) and v.dtype == object:
+            return [val(x) for x in v.reshape(-1)]
+        return np.array(v).tolist()
 
+    reqs = [(r[0], list(r[1])) for r in reqs]
     log = []
     try:
-        bd_build(prob, [], forbid=(0,) * prob["npar"])
+        bd_build(prob, [], forbid=[(0,) * prob["npar"]])
     except AssertionError as e:
         return "defining the block diagonalization failed when only zeroth-order terms are available: %s" % e
     out, H = bd_build(prob, log)
     if any(any(e[2:]) for e in log):
         return "defining the block diagonalization evaluated a non-zeroth-order term %s" % ([e for e in log if any(e[2:])][0],)
     values = []
-    for (s, i, j, n) in reqs:
+    for (s, ix) in reqs:
+        item, elems = expand_request(ix)
+        cones = [e[2:] for e in elems]
         before = len(log)
-        values.append(val(out[s][(i, j) + tuple(n)]))
+        values.append(val(out[s][item]))
         for e in log[before:]:
-            if not leq(e[2:], n):
-                return "request %s evaluated the Hamiltonian term %s outside the cone" % ((s, i, j, n), e)
+            if not in_cones(e[2:], cones):
+                return "request %s evaluated the Hamiltonian term %s outside the cone(s) %s" % ((s, ix), e, cones)
     if len(set(log)) != len(log):
         return "a Hamiltonian term was evaluated more than once: %s" % ([e for e in set(log) if log.count(e) > 1][0],)
-    # fresh computations: (a) terms outside the cone raise if touched, (b) are scaled by 7
-    for k, (s, i, j, n) in enumerate(reqs):
-        out2, _ = bd_build(prob, [], forbid=tuple(n))
+    # fresh computations: (a) terms outside the cones raise if touched, (b) are scaled by 7
+    for k, (s, ix) in enumerate(reqs):
+        item, elems = expand_request(ix)
+        cones = [e[2:] for e in elems]
+        out2, _ = bd_build(prob, [], forbid=cones)
         try:
-            v2 = val(out2[s][(i, j) + tuple(n)])
+            v2 = val(out2[s][item])
         except AssertionError as e:
-            return str(e)
-        out3, _ = bd_build(prob, [], scale_outside=(tuple(n), 7.0))
-        v3 = val(out3[s][(i, j) + tuple(n)])
+            return "request %s: %s" % ((s, ix), e)
+        out3, _ = bd_build(prob, [], scale_outside=(cones, 7.0))
+        v3 = val(out3[s][item])
         if v2 != values[k] or v3 != values[k]:
-            return "value of %s changed when Hamiltonian terms outside the cone were altered" % ((s, i, j, n),)
+            return "value of %s changed when Hamiltonian terms outside the cone were altered" % ((s, ix),)
     return None
+
+
+def bd_requests(rng, prob):
+    """plain requests and, for two or more parameters, paired list indices on the order axes (whose pairs do
+    not fill the bounding box) and on the block axes"""
+    npar = prob["npar"]
+    maxo = 3 if npar == 1 else 2
+    orders = [o for o in itertools.product(range(maxo + 1), repeat=npar) if sum(o) <= maxo]
+    reqs = []
+    for _ in range(4):
+        s, i, j = rng.randrange(3), rng.randrange(2), rng.randrange(2)
+        kind = rng.choice(["plain", "plain", "orders", "orders", "blocks"]) if npar >= 2 else rng.choice(["plain", "plain", "blocks"])
+        if kind == "plain":
+            ix = [i, j] + list(rng.choice(orders))
+        elif kind == "orders":
+            a, b = rng.choice([(2, 0), (2, 0), (1, 0)])
+            lists = [["l", [a, b]], ["l", [b, a]]] + [0] * (npar - 2)
+            rng.shuffle(lists)
+            ix = [i, j] + lists
+        else:
+            n = list(rng.choice(orders))
+            ix = [["l", [0, 1]], ["l", [1, 0]]] + n if rng.random() < 0.5 else [["l", [0, 1]], ["l", [0, 1]]] + n
+        reqs.append((s, ix))
+    return reqs
 
 
 def oracle_calllog_bd(ctx):
@@ -204,18 +275,16 @@ def oracle_calllog_bd(ctx):
     failures, samples = [], []
     for _ in range(ctx.n(25, 400)):
         prob = bd_problem(rng)
-        maxo = 3 if prob["npar"] == 1 else 2
-        orders = [o for o in itertools.product(range(maxo + 1), repeat=prob["npar"]) if sum(o) <= maxo]
-        reqs = [(rng.randrange(3), rng.randrange(2), rng.randrange(2), list(rng.choice(orders))) for _ in range(4)]
+        reqs = bd_requests(rng, prob)
         evaluations += 1
-        if any(sum(r[3]) >= 2 for r in reqs):
+        if any(sum(e[2:]) >= 2 for r in reqs for e in expand_request(r[1])[1]):
             nontrivial += 1
         try:
             what = bd_check(prob, reqs)
         except Exception as e:  # noqa: BLE001
             what = "block_diagonalize request raised %s: %s" % (type(e).__name__, str(e)[:200])
         if what:
-            failures.append(dict(what=what, input=dict(level="block_diagonalize", problem=prob, requests=reqs)))
+            failures.append(dict(what=what, input=dict(level="block_diagonalize", problem=prob, requests=[[r[0], r[1]] for r in reqs])))
         if len(samples) < 1:
             samples.append(dict(problem=prob, requests=reqs))
     return dict(evaluations=evaluations, nontrivial=nontrivial,
@@ -226,7 +295,7 @@ def oracle_calllog_bd(ctx):
 def replay_input(inp):
     if inp.get("level") == "block_diagonalize":
         try:
-            return bd_check(inp["problem"], [(r[0], r[1], r[2], list(r[3])) for r in inp["requests"]])
+            return bd_check(inp["problem"], [(r[0], r[1]) for r in inp["requests"]])
         except Exception as e:  # noqa: BLE001
             return "block_diagonalize request raised %s" % type(e).__name__
     w = PG.world_from_json(inp["world"])
@@ -247,6 +316,18 @@ def replay_input(inp):
         for (x, idx) in log[before:]:
             if not leq(idx[2:], r[2][2:]):
                 return "request %s evaluated the input element %s%s outside the cone" % (r, x, list(idx))
+    if inp.get("list_request"):
+        name, item = inp["list_request"]
+        item = tuple(item)
+        cones = [tuple(x[k] if isinstance(x, list) else x for x in item[2:]) for k in range(2)]
+        before = len(log)
+        try:
+            series[name][item]
+        except Exception:  # noqa: BLE001
+            pass
+        for (x, idx) in log[before:]:
+            if not in_cones(idx[2:], cones):
+                return "request %s%s evaluated the input element %s%s outside the cones" % (name, list(item), x, list(idx))
     if len(set(log)) != len(log):
         return "an input element was evaluated more than once"
     return None
